@@ -1,5 +1,69 @@
 import KrroodVerif.Sexp
+import KrroodVerif.Model.Dom
+import KrroodVerif.Model.Eql
+import KrroodVerif.Drive.EqlParse
 namespace KrroodVerif.Drive.C03
-/-- stub: replaced when the model for C03 is built -/
-def run (_ : Sexp) : String := "model=unimplemented\tspec=unimplemented\ttrig="
+open KrroodVerif KrroodVerif.Dom
+
+def showOut : Option Out → String
+  | none => "-"
+  | some (.val x) => toString x
+  | some .stop => "stop"
+  | some .runtimeError => "RuntimeError"
+
+def parseOp : Sexp → Option Op
+  | .list [.atom "start", i] => i.asNat?.map Op.start
+  | .list [.atom "next", i] => i.asNat?.map Op.next
+  | .list [.atom "abandon", i] => i.asNat?.map Op.abandon
+  | _ => none
+
+def parseSat : Sexp → Option (Nat × List Nat)
+  | .list (i :: xs) => do pure ((← i.asNat?), (← xs.mapM Sexp.asNat?))
+  | _ => none
+
+/-- `(sched (n N) (sats (i e…)…) (ops …))`: interleaved single-variable query iterators over one shared variable -/
+def runSched (items : List Sexp) : Option String := do
+  let n ← match Sexp.field? items "n" with | some [x] => x.asNat? | _ => none
+  let sats ← (← Sexp.field? items "sats").mapM parseSat
+  let ops ← (← Sexp.field? items "ops").mapM parseOp
+  let satf := fun i => (sats.lookup i).getD []
+  let m := run satf (init n) ops
+  let sp := specRun n satf [] ops
+  let trig := if sequential ops then "" else "F-C03-1"
+  pure s!"model={" ".intercalate (m.map showOut)}\tspec={" ".intercalate (sp.map showOut)}\ttrig={trig}"
+
+open KrroodVerif.Eql KrroodVerif.Drive.EqlParse in
+/-- `(multi (order (qi k)…) (objs …) (doms …) (queries (qq (sel …) (cond …))…))`: the listed query objects (sharing
+their variables) are evaluated one after the other, the j-th evaluation consuming `k` results (`-1`: all) before it
+is abandoned. Expected (model = spec, by `C03_sequential_partial`): each evaluation yields the prefix of its
+isolated result sequence, computed by the M-EQL model. -/
+def runMulti (items : List Sexp) : Option String := do
+  let order ← (← Sexp.field? items "order").mapM fun s => match s with
+    | .list [a, b] => do pure ((← a.asNat?), (← b.asInt?))
+    | _ => none
+  let objs ← Sexp.field? items "objs"
+  let doms ← Sexp.field? items "doms"
+  let subs := (Sexp.field? items "sub").getD []
+  let qs ← Sexp.field? items "queries"
+  let parsed ← qs.mapM fun s => match s with
+    | .list (.atom "qq" :: parts) =>
+      parseCase (.list (.atom "q" :: (parts ++ [.list (.atom "objs" :: objs), .list (.atom "doms" :: doms), .list (.atom "sub" :: subs)])))
+    | _ => none
+  let outs := order.map fun (qi, k) =>
+    match parsed[qi]? with
+    | none => "bad-query-index"
+    | some (w, q) =>
+      match evalQuery w q.toQuery with
+      | .error e => errName e
+      | .ok rows =>
+        let rows := if k < 0 then rows else rows.take k.toNat
+        "[" ++ " ".intercalate (rows.map showRow) ++ "]"
+  let out := " ; ".intercalate outs
+  pure s!"model={out}\tspec={out}\ttrig="
+
+def run (s : Sexp) : String :=
+  match s with
+  | .list (.atom "sched" :: items) => (runSched items).getD "error=bad-case"
+  | .list (.atom "multi" :: items) => (runMulti items).getD "error=bad-case"
+  | _ => "error=bad-case"
 end KrroodVerif.Drive.C03
